@@ -16,7 +16,7 @@ def cstepF (S : Schema) (cx : Cx) (x : SRef) (c : CSibs) (o : Op) : CSibs :=
       | some (a, n, b) =>
         if n.sch = some x then
           if !isAlone a n b then
-            (c.lyds.unlink (block x a).length).insert keyGt (block x (a ++ b)).head? { n with key := k }
+            (c.lyds.unlink (block x a).length).insert keyGt (block x (a ++ b)) { n with key := k }
           else
             ⟨match c.lyds.tree with
               | .nil => .nil
@@ -127,7 +127,7 @@ theorem cstepF_ok (S : Schema) (cx : Cx) (x : SRef) (hx : (S x).sorted = true) (
             obtain ⟨hn1, hrb, ht⟩ := href
             cases htr : c.lyds.tree with
             | nil =>
-              refine ⟨by simpa using hn1, isRB_nil, Or.inl ⟨rfl, by simp⟩⟩
+              refine ⟨by simpa using hn1, isRB_nil, Or.inl rfl⟩
             | node cc l d r =>
               refine ⟨by simpa using hn1, ⟨⟨trivial, trivial, rfl⟩, ⟨trivial, trivial, by simp⟩, rfl⟩, Or.inr rfl⟩
           · -- lyd_unlink_tree + lyd_insert_node
